@@ -200,6 +200,65 @@ impl Likely {
         v.map(|v| Self::over(v, x))
     }
 
+    /// The answers C06 accepts for one maximize call: the dictionary answer and, where the
+    /// dictionary finds nothing, also the UTS #35 fallback (either is accepted).
+    pub fn maximize_options(&self, x: Triple) -> Vec<Option<Triple>> {
+        let mut v = vec![self.ref_maximize(x)];
+        if let Some(f) = self.uts35_fallback(x) {
+            v.push(Some(f));
+        }
+        v
+    }
+
+    /// Every outcome of the three-trial rule of C08 when each of its maximize calls may give any
+    /// of the answers C06 accepts (`maximize_options`).  On triples where no fallback is in reach
+    /// this is the single answer of `ref_minimize`.
+    pub fn ref_minimize_options(&self, x: Triple) -> Vec<Option<Triple>> {
+        let mut out: Vec<Option<Triple>> = vec![];
+        let mut add = |o: Option<Triple>, out: &mut Vec<Option<Triple>>| {
+            if !out.contains(&o) {
+                out.push(o);
+            }
+        };
+        let maxes: Vec<Option<Triple>> = if x.0 != 0 && x.1 != 0 && x.2 != 0 { vec![Some(x)] } else { self.maximize_options(x) };
+        for max in maxes {
+            let max = match max {
+                None => {
+                    add(None, &mut out);
+                    continue;
+                }
+                Some(m) => m,
+            };
+            let mut trials = vec![(max.0, 0, 0)];
+            if max.2 != 0 {
+                trials.push((max.0, 0, max.2));
+            }
+            if max.1 != 0 {
+                trials.push((max.0, max.1, 0));
+            }
+            // depth-first over the answer of every trial: a trial "hits" when its answer is max
+            fn rec(lk: &Likely, trials: &[Triple], i: usize, max: Triple, out: &mut Vec<Option<Triple>>) {
+                if i == trials.len() {
+                    if !out.contains(&None) {
+                        out.push(None);
+                    }
+                    return;
+                }
+                for ans in lk.maximize_options(trials[i]) {
+                    if ans == Some(max) {
+                        if !out.contains(&Some(trials[i])) {
+                            out.push(Some(trials[i]));
+                        }
+                    } else {
+                        rec(lk, trials, i + 1, max, out);
+                    }
+                }
+            }
+            rec(self, &trials, 0, max, &mut out);
+        }
+        out
+    }
+
     pub fn ref_minimize(&self, x: Triple) -> Option<Triple> {
         let max = if x.0 != 0 && x.1 != 0 && x.2 != 0 {
             x
